@@ -926,7 +926,9 @@ func (p *queryPlan) projectAndGroupBy() error {
 		// Update sorting configuration.
 		found := false
 		for _, g := range p.stm.GroupByBindings() {
-			if prj.Binding == g {
+			// Same matching rule as groupByBindingsChecker: a GROUP BY name refers to the
+			// alias of a projection if it has one, to its binding otherwise.
+			if g == prj.Alias || (prj.Alias == "" && g == prj.Binding) {
 				found = true
 			}
 		}
